@@ -17,6 +17,16 @@ Correspondence run here:
       under the lock; native monitors (distinct ranks, refused only if held, get_num = live count, ABTI_ASSERTs);
   T3x abtd_stream.c (the tree's own text, compiled with virtual pthread primitives) driven through
       random interleavings incl. spurious wake-ups, event by event against Lean Model.XsCtx;
+  T1l token skeletons of the life-cycle functions of stream.c / thread.c / abtd_stream.c / sched.c that Model.XsLife
+      abstracts (xstream_join, ABT_xstream_revive / cancel / exit / free / get_state, thread_root_func,
+      thread_main_sched_func, xstream_launch_root_ythread, ABTI_xstream_check_events, ABTI_ythread_schedule, ...);
+  T3l join / cancel / exit / revive / free histories on the REAL library under the controlled scheduler
+      (harness/sc_xslife.c: 1-3 secondary streams whose native threads are controlled too; primary ULT + external
+      thread; the join placed right after TERMINATED becomes visible): every trace is projected (vlib/t3_xslife.py:
+      atomic operations on the public state / scheduler request / main-scheduler ULT request+state, virtual pthread
+      mutex+cond lines with the context state word) onto Lean Model.XsLife (`driver xslife`); native monitors (join
+      returns only with a parked context, get_state, every pushed ULT runs exactly once, revive yields a running
+      stream, ABTI_ASSERTs);
   RP  single-caller main-scheduler replacement family (BASIC/PRIO/RANDWS, work pending in old and
       new pools, repeated) + replacement on a joined stream followed by revive;
   F7  the overlapping-replacement scenario of the open finding (corpus/findings/f7_double_replace.c).
@@ -24,7 +34,7 @@ Correspondence run here:
 import collections, json, os, subprocess, time
 from vlib import common as C
 from vlib import diff as D
-from vlib import t1, t3_ranks, vs
+from vlib import t1, t3_ranks, t3_xslife, vs
 
 ASSUMPTIONS = [
     "the lock scope of rank allocation is modelled and checked, not assumed: Model.RankConc interleaves any number of "
@@ -46,6 +56,18 @@ ASSUMPTIONS = [
     "ABTD_xstream_context: pthread mutex/condvar are ideal primitives (signal wakes one chosen waiter, spurious "
     "wake-ups allowed); join/revive/free on one stream are issued one at a time and revive only after a join "
     "(the API's stated contract); thread_f may return at any time",
+    "life cycle (Model.XsLife): what Model.XsCtx assumes about its callers is derived, not assumed (join reaches the "
+    "context join only after the main scheduler terminated; revive / free reach the context only after a completed "
+    "context join).  Still assumed: the API contract that ABT_xstream_join / revive / free on one stream are issued one "
+    "at a time, ABT_xstream_revive only after a completed join and ABT_xstream_cancel only on a stream whose public "
+    "state is RUNNING (documented as undefined otherwise); no main-scheduler replacement during the modelled life "
+    "(Model.Replace / F7 / F16 cover that); the hand-shake below `wait until the main scheduler's ULT is TERMINATED` is "
+    "Model.Join's (C03); ABTI_sched_has_to_stop's two emptiness tests are one atomic test of the model (an "
+    "over-approximation: the request bits only grow while the scheduler runs); sequentially consistent atomics",
+    "T3l scenario discipline: pushes to a stream never overlap a join / free of that stream (the scheduler's last "
+    "emptiness test is not visible in the trace; the model's `nStop` is placed where the main scheduler's function "
+    "returns); the native thread's steps before the stream has a name in the trace read only initial values and are "
+    "placed right after `init` by the projection",
     "set_affinity is off (HAVE_PTHREAD_SETAFFINITY_NP undefined in this build), so set_rank does not touch CPU binding",
     "main-scheduler replacement is checked dynamically (RP) and, if Model.Replace is built, proved only for "
     "non-overlapping requests; the overlapping case is the open finding F7",
@@ -725,13 +747,92 @@ def t3_conc(res, tier, broken):
 
 
 # --------------------------------------------------------------------------
+# T1l + T3l: the join / cancel / exit / revive / free life cycle in stream.c itself (Model.XsLife)
+# --------------------------------------------------------------------------
+T1_LIFE = ([("stream.c", f) for f in [
+    "ABT_xstream_join", "xstream_join", "ABT_xstream_revive", "ABT_xstream_cancel", "ABT_xstream_exit",
+    "ABT_xstream_free", "ABTI_xstream_free", "ABT_xstream_get_state", "xstream_launch_root_ythread",
+    "ABTI_xstream_check_events"]] +
+    [("thread.c", f) for f in [
+        "thread_root_func", "thread_main_sched_func", "ABTI_thread_revive", "thread_revive", "ABTI_thread_join",
+        "ABTI_thread_handle_request_cancel", "ABTI_ythread_schedule", "ABTI_thread_handle_request"]] +
+    [("arch/abtd_stream.c", f) for f in [
+        "xstream_context_thread_func", "ABTD_xstream_context_create", "ABTD_xstream_context_free",
+        "ABTD_xstream_context_join", "ABTD_xstream_context_revive"]] +
+    [("sched/sched.c", f) for f in ["ABTI_sched_finish", "ABTI_sched_exit", "ABTI_sched_has_to_stop"]])
+
+LIFE_SC = ("sc_xslife", ["sc_xslife.c"])
+
+
+def life_params(rng):
+    """<nstreams> <ops per stream> <ext%> <par%>"""
+    return [1 + rng.below(3), 6 + rng.below(18), rng.choice([0, 30, 50, 70, 100]), rng.choice([0, 50, 80])]
+
+
+def life_log():
+    return os.path.join(C.BUILD, "logs", "C17xl-%d.log" % os.getpid())
+
+
+def life_reject_is_failure(rj):
+    """Model.XsLife's guards are clauses of the property (join returns only with a parked context; revive / free act on a
+    WAITING context; a scheduler stops only on request; get_state reports the life cycle): a real execution the model
+    rejects is a failing history.  Lines the projection could not attribute are problems of the tie, not failures."""
+    r = rj.get("reject", "")
+    if not r.startswith("REJECT") or "bad-op" in r or "unattributed" in r or "unexpected-" in r or "missing-offset" in r:
+        return None
+    return "execution of the real library leaves the life-cycle automaton Model.XsLife (%s): %s" % (rj.get("object", ""), r[:400])
+
+
+def t1_life(res, broken):
+    n, tb = t1.check(T1_LIFE)
+    res.add_cov(t1_functions=n, t1_broken=len(tb), xslife_t1_functions=n)
+    for b in tb:
+        broken.append({"kind": "T1-skeleton", **b})
+
+
+def _campaign_cov(res, tag):
+    """vs.campaign overwrites its non-numeric coverage keys: keep each campaign's own copy"""
+    keys = ["programs_and_schedules", "outcomes", "model_transitions"]
+    res.cov[tag] = {k: res.cov.get(k) for k in keys}
+    return set(res.cov.get("model_transitions") or [])
+
+
+def t3_life(res, tier, broken):
+    stats = collections.Counter()
+
+    def validate(lg, params):
+        return t3_xslife.validate(lg, params, stats, path=life_log())
+
+    t0 = time.time()
+    vs.campaign(res, broken, tier, "C17xl", LIFE_SC[0], LIFE_SC[1], life_params, validate,
+                sizes={"quick": (44, 4), "thorough": (500, 8), "search": (400, 6)}, reject_is_failure=life_reject_is_failure)
+    res.add_cov(xslife_wall_s=round(time.time() - t0, 1),
+                xslife_stream_lives=stats["lives"], xslife_calls={k[5:]: v for k, v in stats.items() if k.startswith("call_")},
+                xslife_cancels=stats["cancel"], xslife_exits_by_a_ULT=stats["exit_by_a_ULT"], xslife_pushes=stats["push"],
+                xslife_get_state={k[10:]: v for k, v in stats.items() if k.startswith("get_state_")},
+                xslife_revives_by_cause_of_termination={k[14:]: v for k, v in stats.items() if k.startswith("revives_after_")},
+                xslife_joins_between_TERMINATED_visible_and_thread_parked=stats["joins_issued_between_TERMINATED_visible_and_native_thread_parked"],
+                xslife_joins_after_thread_parked=stats["joins_after_the_native_thread_parked"],
+                xslife_joins_of_joined_stream=stats["joins_of_an_already_joined_stream"],
+                xslife_context_joins_that_slept=stats["context_joins_that_slept"],
+                xslife_main_scheduler_cancelled_before_start=stats["main_scheduler_cancelled_before_it_started"],
+                xslife_started_before_named=stats["main_scheduler_started_before_the_stream_was_named"])
+
+
+# --------------------------------------------------------------------------
 def run(res, tier, broken):
     t0 = time.time()
     exe = C.cc_harness("api_ranks", ["api_ranks.c"], "plain")
     snapshot_driver()
     try:
         t1_ranks(res, broken)
+        t1_life(res, broken)
+        t3_life(res, tier, broken)
+        tr_life = _campaign_cov(res, "campaign_xslife")
         t3_conc(res, tier, broken)
+        tr_ranks = _campaign_cov(res, "campaign_ranks")
+        res.cov["model_transitions"] = sorted(tr_life | tr_ranks)
+        res.cov["model_transitions_exercised"] = len(tr_life | tr_ranks)
         t2_ranks(res, tier, broken, exe)
         t2_cycles(res, tier, broken, exe)
         wb_stale_prev(res, tier, broken)
@@ -748,6 +849,9 @@ def replay(res, path):
     rep = json.load(open(path))
     if rep.get("scenario") == RANKS_SC[0]:
         return vs.replay(RANKS_SC[0], RANKS_SC[1], path, lambda lg, params: t3_ranks.validate(lg, params))
+    if rep.get("scenario") == LIFE_SC[0]:
+        rlog = os.path.join(C.BUILD, "logs", "replay-%d.log" % os.getpid())
+        return vs.replay(LIFE_SC[0], LIFE_SC[1], path, lambda lg, params: t3_xslife.validate(lg, params, path=rlog))
     exe = C.cc_harness("api_ranks", ["api_ranks.c"], "plain")
     if "ops" in rep:
         d = rank_disagreement(exe, rep["ops"])
